@@ -37,4 +37,4 @@ DELIVERABLES, for i = 1..{n}, in {wt}/mutants/m<i>/ :
   - patch.diff : `git diff` of the change against HEAD (only files under dadi/), appliable with `git apply`
   - demo.py    : a small standalone program (its first lines must be `import sys, os; sys.path.insert(0, os.getcwd())` so that it imports the dadi of the current directory; run as `cd {wt} && /venv/bin/python -W ignore mutants/m<i>/demo.py`) that exits 0 / prints PASS on the unmodified tree and exits 1 / prints FAIL with the mutant applied, demonstrating the property violation through dadi's public API
   - meta.json  : {{"property": "{p['id']}", "summary": "...", "needs_to_manifest": "...", "files": [...], "tests_run": "command and result"}}
-Work on one mutant at a time: apply, run full tests, write the deliverables, then `git checkout -- dadi` (and REBUILD.sh if C was touched) before starting the next. Leave the worktree with NO mutant applied at the end (git status clean except the mutants/ directory). Verify each demo.py both ways (with and without the patch). Finish with a short report listing the mutants and whether the full suite passed for each.""")
+Do NOT use `git stash` (the stash is shared by all worktrees of the repository and other people work in sibling worktrees at the same time): save a change with `git diff > file`, drop it with `git checkout -- dadi`, restore it with `git apply file`. Work on one mutant at a time: apply, run full tests, write the deliverables, then `git checkout -- dadi` (and REBUILD.sh if C was touched) before starting the next. Leave the worktree with NO mutant applied at the end (git status clean except the mutants/ directory). Verify each demo.py both ways (with and without the patch). Finish with a short report listing the mutants and whether the full suite passed for each.""")
